@@ -1379,7 +1379,7 @@ Qed.
 Lemma apply_coarse_sched : forall sb a c, coarse_req a <> 0 -> exists s,
   apply_coarse sb a c = run_sched sb s c /\ Forall (fun e => sev_req e = coarse_req a) s.
 Proof.
-  intros sb [r|r g|r|r] c Hr; cbn [apply_coarse coarse_req] in *.
+  intros sb [r|r g|r|r|r] c Hr; cbn [apply_coarse coarse_req] in *.
   - destruct (q_started (get_req r (c_w c))); [exists []; split; [reflexivity | constructor]|].
     exists [SStart r; SPoll r 0]; split; [reflexivity | repeat constructor].
   - destruct (q_started (get_req r (c_w c))) eqn:Es; cbn [andb]; [|exists []; split; [reflexivity | constructor]].
@@ -1399,6 +1399,8 @@ Proof.
     + rewrite !run_sched_app, <- E1. cbn [run_sched fold_left step]. fold c1. rewrite E2. exact E3.
     + apply Forall_app; split; [apply Forall_map_req; reflexivity|].
       apply Forall_app; split; [repeat constructor | exact F3].
+  - destruct (q_started (get_req r (c_w c))); [exists []; split; [reflexivity | constructor]|].
+    exists [SStart r]; split; [reflexivity | repeat constructor].
 Qed.
 
 Definition run_actions (sb : bool) (acts : list coarse) (c : cfg) : cfg :=
